@@ -64,6 +64,8 @@ def run_profile(scratch, nat, release, prop, tier, qs, info):
     for s in summaries:
         findings += Q.check_summary(s, profile, qs, timeout_ms=timeout_ms, seed=V.seed(),
                                     want_c05=(prop == "C05"), want_c17=(prop == "C17"))
+    if prop == "C17":
+        findings += builtin_and_optional_panics(mf, oc, scratch, profile, qs, timeout_ms, info)
     findings = [f for f in findings if f.prop == prop]
     log("  [%s] %d obligations so far, %d candidate findings, %.1fs" % (profile, qs.obligations, len(findings), time.time() - t))
     # native replay of every witness
@@ -74,6 +76,42 @@ def run_profile(scratch, nat, release, prop, tier, qs, info):
             f.native = list(res["w%d" % i])
             f.confirmed = confirms(f)
     return findings, summaries
+
+
+def builtin_and_optional_panics(mf, oc, scratch, profile, qs, timeout_ms, info):
+    """C17 also covers the kernels of C14 (numeric built-ins) and C12 (optional instructions): no feasible path panics"""
+    import builtinkernels as B
+    sys.path.insert(0, HERE)
+    import c14_main, c12_main
+    out = []
+    bk = B.BuiltinKernels(mf, oc, scratch.repo, seed=V.seed())
+    info["functions"][profile].update({"built-in:" + k: v for k, v in bk.encoded_functions().items()})
+    for m, k, e in c14_main.cases("quick"):
+        s = bk.summarize(m, k, e)
+        arm = s.kinds[0] + ("" if s.exponent is None else ",exp=%d" % s.exponent) + (",exp<0" if s.pre is not None else "")
+        fs = Q.check_summary(s, profile, qs, timeout_ms=timeout_ms, seed=V.seed(), want_c05=False, want_c17=True, orc={"supported": False}, arm=arm)
+        out += fs
+    ker = K.Kernels(mf, oc, scratch.repo, seed=V.seed())
+    ok_ = c12_main.OptKernels(ker, mf)
+    for ins, iargs, kinds in c12_main.all_instances():
+        inputs, outs = ok_.run(ins, iargs, kinds)
+        panics = [o for o in outs if o.kind == "panic"]
+        qs.obligations += 1
+        if not panics:
+            qs.discharged += 1
+            continue
+        ps = K.Summary(ins, tuple(kinds), inputs, [], "c12", 0)
+        import z3
+        cond = z3.Or(*[z3.And(*o.pc) if o.pc else z3.BoolVal(True) for o in panics])
+        qs.obligations -= 1
+        r, vals = Q.decide(cond, ps, qs, timeout_ms, V.seed(), "%s%r/%s:C17-no-panic" % (ins, kinds, profile))
+        if r == "sat":
+            f = Q.Finding("C17", ins, ",".join(kinds), "panic:" + Q.panic_class(panics[0].value.msg), profile, [(kinds[i], vals[i]) for i in range(len(kinds))],
+                          "Rust panic `%s` in instruction %s" % (panics[0].value.msg, ins))
+            f.native_op = "O:%s%s" % (ins, (":" + iargs[0]) if iargs else "")
+            f.predicted = ["PANIC"]
+            out.append(f)
+    return out
 
 
 def confirms(f):
